@@ -19,7 +19,7 @@ RULE = (
     "sample or condition that is absent from this stage's rows"
 )
 ASSUMPTIONS = ["the lineage root is the screen handed to the hold-out split (what prepare_retrospective_simulation saves)"]
-REQUIRED = {"stages_checked": {"quick": 6000, "thorough": 60000}, "stages_with_holdout_only_conditions": {"quick": 3000, "thorough": 30000}, "prediction_comparisons": {"quick": 50000, "thorough": 500000}, "cli_stages": {"quick": 400, "thorough": 4000}, "zero_row_stages": {"quick": 15, "thorough": 200}, "train_cli_runs": {"quick": 40, "thorough": 500}}
+REQUIRED = {"cli_prepared_lineages": {"quick": 12, "thorough": 120}, "stages_checked": {"quick": 6000, "thorough": 60000}, "stages_with_holdout_only_conditions": {"quick": 3000, "thorough": 30000}, "prediction_comparisons": {"quick": 50000, "thorough": 500000}, "cli_stages": {"quick": 400, "thorough": 4000}, "zero_row_stages": {"quick": 15, "thorough": 200}, "train_cli_runs": {"quick": 40, "thorough": 500}}
 N_LIN = {"quick": 640, "thorough": 6400}
 
 
@@ -55,6 +55,60 @@ def check_stage(rec, stage, root, smap, tmap, what, w):
     lost_t = sorted(k for k, v in tmap.items() if t2.get(k) != v)
     rec.check(not lost_s and not lost_t, "C03/mapping/root-entry-lost-%s" % (what.split(":")[0]), lambda: "%s: the stage's mappings no longer assign the lineage's id to samples %r / conditions %r" % (what, lost_s[:4], lost_t[:4]), w)
     return bad is None and not lost_s and not lost_t
+
+
+def prepared_by_cli(rec, tier, rng, tmp):
+    """The lineage as the pipeline starts it: prepare_retrospective_simulation on a file, with a plate smoother (which
+    drops experiments and rebuilds screens on the way) and a hold-out; the training and the test file must number
+    every name they share alike, and a model sized by the training file must be able to index every test row."""
+    from batchie.data import Screen, ExperimentSpace
+    from batchie.cli import prepare_retrospective_simulation as cli
+
+    smoothers = [
+        ("NPlatePerCellLineSmoother", lambda: ["min_n_cell_line_plates=%d" % int(rng.integers(1, 4))]),
+        ("FixedSizeSmoother", lambda: ["plate_size=%d" % int(rng.integers(2, 6))]),
+        ("MergeMinPlateSmoother", lambda: ["min_size=%d" % int(rng.integers(2, 8))]),
+        ("OptimalSizeSmoother", lambda: []),
+        (None, lambda: []),
+    ]
+    for ci in range({"quick": 3, "thorough": 14}[tier]):
+        kw = gen.realistic_screen_kwargs(rng, n_samples=(3, 6), n_rows=(20, 60), n_plates=(4, 10), observed="all", plate_per_sample=True, singletons=float(rng.uniform(0.1, 0.3)), unicode_names=bool(rng.random() < 0.2))
+        f_in, f_tr, f_te = (os.path.join(tmp, x) for x in ("prep_in.h5", "prep_train.h5", "prep_test.h5"))
+        try:
+            Screen(**kw).save_h5(f_in)
+        except Exception as e:
+            rec.did_not_return("prepare-construct", e)
+            continue
+        sm, smp = smoothers[int(rng.integers(len(smoothers)))]
+        frac = float(rng.choice([0.1, 0.25, 0.5]))
+        argv = ["--data", f_in, "--training-output", f_tr, "--test-output", f_te, "--holdout-fraction", frac, "--seed", int(rng.integers(0, 1000))]
+        if sm:
+            argv += ["--plate-smoother", sm]
+            for p_ in smp():
+                argv += ["--plate-smoother-param", p_]
+        w = {"via": "prepare_retrospective_simulation", "smoother": sm, "fraction": frac}
+        try:
+            kit.run_cli(cli.main, argv)
+            train, test = Screen.load_h5(f_tr), Screen.load_h5(f_te)
+        except Exception as e:
+            rec.did_not_return("prepare-cli", e)
+            continue
+        rec.count("cli_prepared_lineages")
+        rec.case(("prepare-cli", kit.array_hash(kw["observations"]), sm, frac), nontrivial=test.size > 0)
+        s_tr = dict(zip([str(x) for x in train.sample_mapping[0]], [int(x) for x in train.sample_mapping[1]]))
+        s_te = dict(zip([str(x) for x in test.sample_mapping[0]], [int(x) for x in test.sample_mapping[1]]))
+        t_tr = dict(zip(zip([str(x) for x in train.treatment_mapping[0]], [float(x) for x in train.treatment_mapping[1]]), [int(x) for x in train.treatment_mapping[2]]))
+        t_te = dict(zip(zip([str(x) for x in test.treatment_mapping[0]], [float(x) for x in test.treatment_mapping[1]]), [int(x) for x in test.treatment_mapping[2]]))
+        bad_s = [(n_, s_tr[n_], s_te[n_]) for n_ in s_tr if n_ in s_te and s_tr[n_] != s_te[n_]]
+        bad_t = [(n_, t_tr[n_], t_te[n_]) for n_ in t_tr if n_ in t_te and t_tr[n_] != t_te[n_]]
+        rec.check(not bad_s and not bad_t, "C03/ids/renumbered-prepare-cli", lambda: "training and test file of one preparation number the same names differently: samples %r, conditions %r (name, id in training, id in test)" % (bad_s[:3], bad_t[:3]), w)
+        # rows decode through their own file's tables
+        for which, scr, sm_, tm_ in (("training", train, s_tr, t_tr), ("test", test, s_te, t_te)):
+            okr = all(sm_.get(str(scr.sample_names[i])) == int(scr.sample_ids[i]) for i in range(scr.size)) and all(tm_.get((str(scr.treatment_names[i, a]), float(scr.treatment_doses[i, a]))) == int(scr.treatment_ids[i, a]) for i in range(scr.size) for a in range(scr.treatment_arity))
+            rec.check(okr, "C03/ids/renumbered-prepare-cli", "%s file: a row's ids are not the ids its own tables give its names" % which, w)
+        if test.size and train.size:
+            sp = ExperimentSpace.from_screen(train)
+            rec.check(int(np.max(test.sample_ids)) < sp.n_unique_samples and int(np.max(test.treatment_ids)) < sp.n_unique_treatments, "C03/space/shrinks", lambda: "a model sized by the training file (%d samples, %d treatments) cannot index the test file (max ids %d, %d)" % (sp.n_unique_samples, sp.n_unique_treatments, int(np.max(test.sample_ids)), int(np.max(test.treatment_ids))), w)
 
 
 def train_cli_ids(rec, train, smap, tmap, a_h5, b_h5, lhash):
@@ -109,6 +163,7 @@ def run_shard(rec, tier, seed, shard, nshards):
     rng = kit.rng_for(seed, NUM, shard)
     n_lin = N_LIN[tier] // nshards
     with kit.scratch_dir("vf-c03-") as tmp:
+        prepared_by_cli(rec, tier, rng, tmp)
         a_h5, b_h5 = os.path.join(tmp, "a.h5"), os.path.join(tmp, "b.h5")
         for li in range(n_lin):
             control = str(rng.choice(["", "DMSO"]))
